@@ -284,7 +284,11 @@ def extract_live_ranges_from_cascaded_passes(
         else:
             lr_graph.current_time += 2
 
-        for tens in cps.intermediates + cps.outputs:
+        # Operators that were packed into one pass of the CPU graph (e.g. RESHAPE followed by EXPAND_DIMS) are all
+        # executed by the runtime: the tensors between them need memory as well
+        packed = [tens for ps in cps.passes for ps_op in ps.ops for tens in ps_op.outputs if tens is not None]
+        packed = [tens for tens in packed if tens not in cps.intermediates and tens not in cps.outputs]
+        for tens in cps.intermediates + cps.outputs + (packed if len(cps.passes[0].ops) > 1 else []):
             if tensor_should_be_ignored(tens, target_mem_area, target_mem_type_set):
                 continue
             rng = lr_graph.get_or_create_range(tens, cpu_tensor_alignment)
